@@ -66,6 +66,15 @@ def eval(
 
 def load(path: Union[str, DDSPath, pathlib.Path]) -> Any:
     path_ = DDSPathUtils.create(path)
+    if _eval_ctx is not None and path_ in _eval_ctx.requested_paths:
+        # The path is kept by the current evaluation. Its paths are only committed when
+        # the evaluation ends: the store still serves the result of the previous evaluation.
+        key = _eval_ctx.requested_paths[path_]
+        if not _store().has_blob(key):
+            raise DDSException(
+                f"Path {path_} is loaded before it is produced by the current evaluation"
+            )
+        return _store().fetch_blob(key)
     key = _store().fetch_paths([path_]).get(path_)
     if key is None:
         raise DDSException(f"The store {_store()} did not return path {path_}")
